@@ -1,5 +1,7 @@
 import Gittuf.Props.C05
+import Gittuf.Proofs.SigComplete
 #print axioms Gittuf.C05_sound
 #print axioms Gittuf.C05_invalid
 #print axioms Gittuf.C05_accept_satisfies
 #print axioms Gittuf.C05_unmet_credited
+#print axioms Gittuf.C05_complete_env
